@@ -344,5 +344,6 @@ RULE = ('every operator ordering of rank 1-2 (spin-free for spin-conserving, spi
         'blocks of the blocked kernels); numeric-index elements; expectationValue(H) for the C01 '
         'Hamiltonian classes. non-trivial: tensor with >= 2 distinct non-zero entries / non-zero value')
 NOT_PROVED = ['the Wick expansions (plain and spin-summed) are proved sound as operator identities (C03_wick_*, C03_spinfree_*); '
-              'rdm_kh (the D-vector RDM formulas of the implementation) is not a Coq theorem: the implementation is compared with '
-              'the matrix-element specification directly']
+              'the D-vector formula of the 2-RDM (overlap of two D-vectors plus the delta term) is a theorem (C03_two_rdm_by_dvectors); '
+              'the index bookkeeping of the implementation\'s RDM kernels (transposes, blocking, 3- and 4-RDM recursions) is not: '
+              'the implementation is compared with the matrix-element specification directly']
